@@ -2,8 +2,8 @@ CONSTANTS
   Positions = {"lis_ctx", "lis_set", "clu", "cm", "ext", "sf", "sfa", "exta"}
   Endpoints = {"full", "mosnconfig", "allrouters", "allclusters", "alllisteners", "router", "cluster", "listener"}
   MaxOps = 4
-  ArrayLen = 3
+  ArrayLen = 2
   Defects = {}
 SPECIFICATION Spec
-INVARIANTS NoLeak DumpIsPure EmitCase
+INVARIANTS NoLeak DumpIsPure
 CHECK_DEADLOCK FALSE
